@@ -1,5 +1,5 @@
 import Proofs.C14
-import Proofs.Gen
+import Proofs.GenPurity
 #print axioms Xsel.C14.interleaving_eq_serial
 #print axioms Xsel.C14.any_schedule
 #print axioms Xsel.C14.interleaving_eq_serial_own
